@@ -295,6 +295,23 @@ func (h *hist) burst() {
 			}
 		}))
 	}
+	// time passes while the handlers are somewhere inside their calls (a handler that is descheduled
+	// or paused between two statements resumes at a later wall-clock time)
+	if t.Choose(2, "burst.clock-moves") == 1 {
+		menu := world.AdvanceMenu(h.base)
+		jumps := 1 + t.Choose(2, "burst.jumps")
+		tasks = append(tasks, w.S.Go("clock", func() {
+			for j := 0; j < jumps && !w.S.Ending(); j++ {
+				for y := t.Choose(12, "burst.jump-after"); y > 0; y-- {
+					w.S.Point(simrt.KSeam, "burst.clock")
+				}
+				d := menu[t.Choose(len(menu), "burst.jump")]
+				if d > 0 {
+					w.Advance(d)
+				}
+			}
+		}))
+	}
 	for _, tk := range tasks {
 		w.S.Join(tk)
 	}
